@@ -2126,7 +2126,9 @@ def _compute_event_comparison_score(
     if priority:
         match_score *= priority
 
-    return match_score
+    # Scores that are equal by the formula (e.g. 0.9**4 and 0.9**3 * 0.9) must also
+    # compare as equal: we remove the floating point noise of the products.
+    return round(match_score, 12)
 
 
 def find_all_active_event_matchers(
